@@ -366,6 +366,13 @@ def check(P, R):
              f'(a truncated body can be accepted as complete)', key_extra='shared:' + w['target'] + w['kind'])
 
     # ---- e: mapping of request errors
+    check_errors_mapping(P, R, 'C05.e')
+    check_raise_and_body(P, R, 'C05.e')
+
+
+def check_errors_mapping(P, R, rid):
+    """every RequestError subclass is answered 4xx by _raise(err, RequestError): through an entry for its own class, else through the RequestError
+    entry (the lookup is by exact class, it does not walk the hierarchy)"""
     table = errors_map_table(P)
     req_err = P.cls('ombott.request_pkg.errors:RequestError')
     subs = [c for c in P.classes.values() if P.is_subclass(c, req_err)]
@@ -374,10 +381,10 @@ def check(P, R):
         # _raise(err, RequestError): own class first, then the fallback class
         status = status_for(P, table, c, req_err)
         ok = isinstance(status, int) and 400 <= status <= 499
-        R.ob('C05.e', c.module.name + ':' + c.qual, None, ok, text=f'{c.name} -> {status}',
-             detail='' if ok else f'{c.name} is not mapped to a 4xx response by errors_map (got {status})',
+        R.ob(rid, c.module.name + ':' + c.qual, None, ok, text=f'{c.name} -> {status}',
+             detail='' if ok else f'{c.name} is not mapped to a 4xx response by errors_map (got {status}): _raise looks up the exact class and then the fallback '
+             f'class only, so the error is re-raised as it is and answered 500',
              why='a malformed body must be answered as a client error')
-    check_raise_and_body(P, R, 'C05.e')
 
 
 def check_raise_and_body(P, R, rid):
